@@ -149,3 +149,36 @@ func cloneOmap(m *omap) *omap {
 	}
 	return c
 }
+
+func init() {
+	// sort.Slice uses reflection to build its swapper; do it host-side with
+	// the interpreted less function (insertion sort: stable and simple).
+	defaultIntercepts["sort.Slice"] = func(ps *PathState, fr *frame, fn *ssa.Function, args []value) value {
+		xs, ok := args[0].(iface)
+		if !ok {
+			panic(unsupported{"sort.Slice of a non-slice"})
+		}
+		s, ok := xs.v.([]value)
+		if !ok {
+			return nil
+		}
+		less := args[1]
+		lt := func(i, j int) bool {
+			r := call(fr.i, fr, 0, less, []value{i, j})
+			switch b := r.(type) {
+			case bool:
+				return b
+			case Sym:
+				return ps.Branch(b)
+			}
+			panic(unsupported{"sort.Slice: less returned a non-boolean"})
+		}
+		for i := 1; i < len(s); i++ {
+			for j := i; j > 0 && lt(j, j-1); j-- {
+				s[j], s[j-1] = s[j-1], s[j]
+			}
+		}
+		return nil
+	}
+	defaultIntercepts["sort.SliceStable"] = defaultIntercepts["sort.Slice"]
+}
